@@ -130,27 +130,59 @@ def r5(c):
         d = q.const_def(b, o)
         return (d is not None and str(d).endswith('::MAX')) or q.const_val(b, o) == 65535
     stores = [(i, s) for i, s in b.assigns() if s['pl']['p'] and s['pl']['p'][-1].endswith(':value')]
-    zero = [(i, s) for i, s in stores if s['rv']['r'] == 'use' and q.const_val(b, s['rv']['a'][0]) == 0]
-    inc = [(i, s) for i, s in stores if (i, s) not in zero]
-    okz = len(zero) == 1 and q.has_fact(b, ('b', zero[0][0]), 'eq', is_val, is_max, facts)
-    c.ob('wrap', okz, 'at u16::MAX the counter restarts at 0', '%d stores of 0' % len(zero), loc_of(b))
-    oki = len(inc) == 1 and q.has_fact(b, ('b', inc[0][0]), 'ne', is_val, is_max, facts)
-    if oki:
-        v = q.sem(b, inc[0][1]['rv']['a'][0])
-        oki = v.kind == 'bin' and v.extra[1].startswith('Add') and q.const_val(b, v.extra[3]) == 1 and is_val(v.extra[2])
-    c.ob('increment', oki, 'otherwise the counter is advanced by exactly 1', '%d other stores' % len(inc), loc_of(b))
-    # the value returned is the value BEFORE the update on both arms
-    xs = q.exits(b)
     news = b.calls('rodbus::common::frame::TxId::new')
-    okr = len(news) == 2
-    for cs in news:
-        s = q.sem(b, cs.args[0])
-        in_wrap = zero and b.dominates(('b', zero[0][0]), cs.node)
-        if in_wrap:
-            okr = okr and is_max(cs.args[0])
-        else:
-            okr = okr and 'ret' in q.chain_names(b, cs.args[0]) and inc and not b.dominates(('b', inc[0][0]), ('b', [i for i, st in b.assigns() if st['pl']['l'] == b.names.get('ret', {'l': -1})['l']][0]) if 'ret' in b.names else ('b', 0))
-    c.ob('returns-old', okr, 'next() returns the id before the advance (MAX on the wrapping arm): consecutive calls never return the same id', '%d TxId::new sites' % len(news), loc_of(b))
+    wr = [cs for cs in b.calls() if cs.callee and cs.callee.endswith('::wrapping_add') and 'u16' in cs.callee]
+    if wr and len(stores) == 1 and not [f for f in facts if is_max(f[2]) or is_max(f[3])]:
+        # arithmetic form: `let cur = self.value; self.value = cur.wrapping_add(1); TxId::new(cur)`
+        i1, st = stores[0]
+        v = q.sem(b, st['rv']['a'][0]) if st['rv']['r'] == 'use' else None
+        okw = v is not None and v.kind == 'call' and v.cs in wr and is_val(v.cs.args[0]) and q.const_val(b, v.cs.args[1]) == 1 and not b.in_cycle(('b', i1))
+        c.ob('wrap', okw, 'the counter is advanced with u16::wrapping_add(1): 65535 is followed by 0', repr(v), loc_of(b))
+        c.ob('increment', okw, 'the counter is advanced by exactly 1', repr(v), loc_of(b))
+        okr = len(news) == 1 and is_val(news[0].args[0])
+        if okr:
+            # the value handed out was read before the store: the variable holding it is bound before the store
+            l = news[0].args[0]['pl']['l'] if news[0].args[0].get('k') in ('copy', 'move') else None
+            rd = None
+            cur = l
+            guard = 0
+            while cur is not None and guard < 8:
+                guard += 1
+                ds = b.whole_defs(cur)
+                if len(ds) != 1 or ds[0][0] != 'assign':
+                    break
+                rv = ds[0][2]['rv']
+                if rv['r'] == 'use' and rv['a'][0].get('k') in ('copy', 'move'):
+                    src = rv['a'][0]['pl']
+                    if src['p'] and src['p'][-1].endswith(':value'):
+                        rd = (ds[0][1], ds[0][2])
+                        break
+                    cur = src['l'] if not src['p'] else None
+                    continue
+                break
+            okr = rd is not None and (rd[0] != i1 and b.dominates(('b', rd[0]), ('b', i1)) or
+                                      (rd[0] == i1 and b.blocks[i1]['stmts'].index(rd[1]) < b.blocks[i1]['stmts'].index(st)))
+        c.ob('returns-old', okr, 'next() returns the id read before the advance: consecutive calls never return the same id', '%d TxId::new sites' % len(news), loc_of(b))
+    else:
+        zero = [(i, s) for i, s in stores if s['rv']['r'] == 'use' and q.const_val(b, s['rv']['a'][0]) == 0]
+        inc = [(i, s) for i, s in stores if (i, s) not in zero]
+        okz = len(zero) == 1 and q.has_fact(b, ('b', zero[0][0]), 'eq', is_val, is_max, facts)
+        c.ob('wrap', okz, 'at u16::MAX the counter restarts at 0', '%d stores of 0' % len(zero), loc_of(b))
+        oki = len(inc) == 1 and q.has_fact(b, ('b', inc[0][0]), 'ne', is_val, is_max, facts)
+        if oki:
+            v = q.sem(b, inc[0][1]['rv']['a'][0])
+            oki = v.kind == 'bin' and v.extra[1].startswith('Add') and q.const_val(b, v.extra[3]) == 1 and is_val(v.extra[2])
+        c.ob('increment', oki, 'otherwise the counter is advanced by exactly 1', '%d other stores' % len(inc), loc_of(b))
+        # the value returned is the value BEFORE the update on both arms
+        okr = len(news) == 2
+        for cs in news:
+            s = q.sem(b, cs.args[0])
+            in_wrap = zero and b.dominates(('b', zero[0][0]), cs.node)
+            if in_wrap:
+                okr = okr and is_max(cs.args[0])
+            else:
+                okr = okr and 'ret' in q.chain_names(b, cs.args[0]) and inc and not b.dominates(('b', inc[0][0]), ('b', [i for i, st in b.assigns() if st['pl']['l'] == b.names.get('ret', {'l': -1})['l']][0]) if 'ret' in b.names else ('b', 0))
+        c.ob('returns-old', okr, 'next() returns the id before the advance (MAX on the wrapping arm): consecutive calls never return the same id', '%d TxId::new sites' % len(news), loc_of(b))
     d = P.fn('<rodbus::common::frame::TxId as core::default::Default>::default')
     n = one(d.calls('rodbus::common::frame::TxId::new'), 'TxId::new in default')
     c.ob('starts-at-zero', q.const_val(d, n.args[0]) == 0, 'a new loop starts at transaction id 0', '', loc_of(d))
